@@ -34,7 +34,7 @@ func (v *Verifier) newEnc(fn *ssa.Function, fc *FuncContract) *enc {
 		reach: map[*ssa.BasicBlock]string{}, exitSt: map[*ssa.BasicBlock]map[string]string{},
 		params: map[string]Val{}, dbg: map[string][]ssa.Value{}, callOrd: map[string]int{}, safeOrd: map[string]int{},
 		loopWrites: map[*ssa.BasicBlock]map[string]bool{}, tuples: map[ssa.Value][]Val{}, deferArgs: map[*ssa.Defer][]Val{}, iters: map[*ssa.Range]string{},
-		writeIdx: map[*ssa.BasicBlock]map[string][]string{}, rangeInfo: map[*ssa.Range]*rangeRec{}, declSeq: map[string]int{}, allocd: map[string]bool{}}
+		writeIdx: map[*ssa.BasicBlock]map[string][]string{}, rangeInfo: map[*ssa.Range]*rangeRec{}, guardOf: map[ssa.Value]guardInfo{}, declSeq: map[string]int{}, allocd: map[string]bool{}}
 	e.safetyProps = v.safetyPropsFor(fn)
 	return e
 }
@@ -851,6 +851,7 @@ func (e *enc) store(x *ssa.Store) {
 		e.errf("%s: store through unsupported pointer %s", e.name, x.Addr.Name())
 		return
 	}
+	e.guardCheck(a, true, x.Pos())
 	e.storeAddr(a, v.T)
 }
 
@@ -873,11 +874,15 @@ func (e *enc) unop(x *ssa.UnOp) {
 			e.bind(x, e.freshVal("load", x.Type()))
 			return
 		}
+		e.guardCheck(a, false, x.Pos())
 		t, ty := e.loadAddr(a)
 		s := e.te.SortOf(ty)
 		r := Val{T: e.define("ld."+x.Name(), s, t), S: s, GT: x.Type()}
 		e.bind(x, r)
 		e.loadedFacts(r, a)
+		if gi, ok := e.guardedField(a); ok {
+			e.guardOf[x] = gi
+		}
 	case token.NOT:
 		e.bind(x, Val{T: not(v.T), S: "Bool", GT: x.Type()})
 	case token.SUB:
@@ -1134,7 +1139,66 @@ func (e *enc) sliceOp(x *ssa.Slice) {
 	}
 }
 
+// guardedField: is the address a guarded field of a shared object (not one allocated in this activation)?
+func (e *enc) guardedField(a *Addr) (guardInfo, bool) {
+	if a == nil || a.Root != "ref" || len(a.Path) == 0 || a.Path[0].field < 0 {
+		return guardInfo{}, false
+	}
+	if e.allocd[a.Base] {
+		return guardInfo{}, false // freshly allocated here: not yet shared
+	}
+	tn := typeName(a.RT)
+	st := a.RT.Underlying().(*types.Struct)
+	fname := st.Field(a.Path[0].field).Name()
+	for _, g := range e.v.ct.Guards {
+		if g.Type != tn {
+			continue
+		}
+		for _, f := range g.Fields {
+			if f == fname {
+				mi := e.te.FieldIndex(a.RT, g.Mutex)
+				e.declFun("fieldloc", []Sort{"Int", "Int"}, "Int")
+				return guardInfo{mutex: fmt.Sprintf("(fieldloc %s %d)", a.Base, mi), props: g.Props, what: tn + "." + fname}, true
+			}
+		}
+	}
+	return guardInfo{}, false
+}
+
+func (e *enc) heldTerm(mutex string) string {
+	g := e.v.ct.Ghosts["mu.held"]
+	if g == nil {
+		return "0"
+	}
+	e.regGhost(g)
+	return sel(e.get("mu.held"), mutex)
+}
+
+func (e *enc) guardCheck(a *Addr, write bool, pos token.Pos) {
+	gi, ok := e.guardedField(a)
+	if !ok {
+		return
+	}
+	e.guardOblige(gi, write, "field "+gi.what, pos)
+}
+
+func (e *enc) guardOblige(gi guardInfo, write bool, what string, pos token.Pos) {
+	h := e.heldTerm(gi.mutex)
+	goal := "(>= " + h + " 1)"
+	mode := "read"
+	if write {
+		goal = "(= " + h + " 2)"
+		mode = "write"
+	}
+	e.safeOrd["g:"+mode]++
+	label := fmt.Sprintf("guarded_by %s %s#%d", mode, strings.ReplaceAll(what, " ", "_"), e.safeOrd["g:"+mode])
+	e.oblige("guard", label, gi.props, "guarded_by: "+what+" needs the lock in "+mode+" mode", goal, pos)
+}
+
 func (e *enc) mapUpdate(x *ssa.MapUpdate) {
+	if gi, ok := e.guardOf[x.Map]; ok {
+		e.guardOblige(gi, true, "map update of "+gi.what, x.Pos())
+	}
 	m := e.val(x.Map)
 	k := e.val(x.Key)
 	v := e.val(x.Value)
@@ -1148,6 +1212,9 @@ func (e *enc) mapUpdate(x *ssa.MapUpdate) {
 }
 
 func (e *enc) lookup(x *ssa.Lookup) {
+	if gi, ok := e.guardOf[x.X]; ok {
+		e.guardOblige(gi, false, "map lookup of "+gi.what, x.Pos())
+	}
 	m := e.val(x.X)
 	k := e.val(x.Index)
 	if mt, ok := x.X.Type().Underlying().(*types.Map); ok {
@@ -1325,6 +1392,9 @@ func (e *enc) rangeInit(x *ssa.Range) {
 	mt, isMap := x.X.Type().Underlying().(*types.Map)
 	if !isMap {
 		return
+	}
+	if gi, ok := e.guardOf[x.X]; ok {
+		e.guardOblige(gi, false, "range over "+gi.what, x.Pos())
 	}
 	// ghost key sequence of this iteration: a bijection between [0, n) and the domain at range start
 	src := e.val(x.X)
